@@ -176,10 +176,10 @@ func gen(rng *h.Rng, tier string, emit func(string)) {
 		emit(sb.String())
 		st.Inc("case-" + kind)
 	}
-	for i := 0; i < 160*mult; i++ {
+	for i := 0; i < 450*mult; i++ {
 		one(8, 2, 9+rng.Intn(22), "H8-tiny")
 	}
-	for i := 0; i < 60*mult; i++ {
+	for i := 0; i < 150*mult; i++ {
 		H := []int{1, 2, 3, 5}[rng.Intn(4)]
 		one(H, 1+rng.Intn(4), 3+rng.Intn(12), fmt.Sprintf("H%d", H))
 	}
